@@ -301,6 +301,12 @@ GraphActs ==
     GR("influence", <<>>, << <<"influencee", Rf(X)>>, <<"influencer", Rf(Y)>> >>, <<>>),
     GR("membership", <<>>, << <<"collection", Rf(X)>>, <<"entity", Rf(Y)>> >>, <<>>),
     GR("specialization", <<>>, << <<"specificEntity", Rf(X)>>, <<"generalEntity", Rf(Z)>> >>, <<>>),
+    \* an identifier nobody declares, referenced where an entity and where an agent is expected
+    GR("usage", <<>>, << <<"activity", Rf(Y)>>, <<"entity", Rf(<<"u">>)>> >>, <<>>),
+    GR("association", <<>>, << <<"activity", Rf(Y)>>, <<"agent", Rf(<<"u">>)>> >>, <<>>),
+    \* an element with two values under one attribute name
+    GR("entity", <<NamePL("ex", X)>>, <<>>, << <<NameQN("ex", A, <<"attr">>), [t |-> "str", v |-> "s2"]>>,
+                                             <<NameQN("ex", A, <<"attr">>), [t |-> "int", v |-> "7"]>> >>),
     \* an endpoint is missing although a LATER qualified-name argument is present: still no edge
     \* a URI VALUE with a query string (an ampersand): links in the drawing carry it
     GR("entity", <<NamePL("ex", <<"w">>)>>, <<>>, << <<NameQN("ex", A, <<"attr">>), [t |-> "uri", u |-> C \o <<"amp">>]>> >>),
